@@ -43,12 +43,35 @@ class PNum(SymNum):
         return self._ph()
 
 
+SCHED = {"mode": None}  # None: symbolic draws; "rr": index draws round-robin; "first": every index draw is 0
+
+
+def _scripted_index(n: int) -> int:
+    c = cur()
+    k = c.notes.get("rr", 0)
+    c.notes["rr"] = k + 1
+    return (k % n) if SCHED["mode"] == "rr" else 0
+
+
 class RandShim:
     """Stands in for the `random` name inside mathy_core.problems."""
 
     @staticmethod
-    def _fresh(lo: Any, hi: Any) -> PNum:
+    def _fresh(lo: Any, hi: Any) -> Any:
         c = cur()
+        if SCHED["mode"] is not None:
+            # scheduled runs: only the draws made directly by a generator (term counts) are explored, everything
+            # else is scripted (booleans alternate, numbers take the low end)
+            import sys as _sys
+
+            caller = _sys._getframe(2).f_code.co_name
+            if caller.startswith("gen_"):
+                return lo + c.choose(hi - lo + 1, "top")
+            if caller == "rand_bool":
+                k = c.notes.get("flip", 0)
+                c.notes["flip"] = k + 1
+                return lo if k % 2 == 0 else hi
+            return lo
         z = z3.Int(c.fresh("r"))
         c.add(z3.And(z >= lo, z <= hi))
         return PNum(z3.ToReal(z), True)
@@ -63,11 +86,15 @@ class RandShim:
 
     @staticmethod
     def random() -> float:
+        if SCHED["mode"] is not None:
+            return 0.5
         return RANDOM_REPS[cur().choose(len(RANDOM_REPS), "rnd")]
 
     @staticmethod
-    def uniform(a: float, b: float) -> SymNum:
+    def uniform(a: float, b: float) -> Any:
         c = cur()
+        if SCHED["mode"] is not None:
+            return (a + b) / 2
         z = z3.Real(c.fresh("u"))
         c.add(z3.And(z >= a, z <= b))
         return SymNum(z, False)
@@ -75,6 +102,8 @@ class RandShim:
     @staticmethod
     def _pick(n: int) -> int:
         c = cur()
+        if SCHED["mode"] is not None:
+            return _scripted_index(n)
         c.notes["index_draws"] = c.notes.get("index_draws", 0) + 1
         if c.notes["index_draws"] > DRAW["bound"]:
             raise Budget("more index draws than the stated bound")
@@ -85,9 +114,21 @@ class RandShim:
         return xs[RandShim._pick(len(xs))]
 
     @staticmethod
+    def sample(population: Any, k: int) -> List[Any]:
+        pool = list(population)
+        if k > len(pool) or k < 0:
+            raise ValueError("Sample larger than population or is negative")
+        out = []
+        for _ in range(k):
+            out.append(pool.pop(RandShim._pick(len(pool))))
+        return out
+
+    @staticmethod
     def shuffle(xs: List[Any]) -> None:
         n = len(xs)
         if n <= 1:
+            return
+        if SCHED["mode"] is not None:
             return
         if n <= 3:
             for i in range(n - 1, 0, -1):
@@ -105,6 +146,8 @@ class IndexList(list):
     """A list whose integer index may be a drawn number: counts and bounds the draws."""
 
     def __getitem__(self, i: Any) -> Any:
+        if SCHED["mode"] is not None and not isinstance(i, slice):
+            return list.__getitem__(self, _scripted_index(len(self)))
         if isinstance(i, SymNum):
             c = cur()
             c.notes["index_draws"] = c.notes.get("index_draws", 0) + 1
@@ -122,8 +165,12 @@ class installed:
     def __enter__(self) -> None:
         self.saved = (PR.random, PR.variables, PR.common_variables, PR._pretty_numbers)
         PR.random = RandShim  # type: ignore[assignment]
-        PR.variables = IndexList("abfgxyz"[: self.pool])
-        PR.common_variables = IndexList("xyz")
+        if self.pool <= 0:  # scheduled runs use the real pools
+            PR.variables = IndexList(self.saved[1])
+            PR.common_variables = IndexList(self.saved[2])
+        else:
+            PR.variables = IndexList("abfgxyz"[: self.pool])
+            PR.common_variables = IndexList("xyz")
         PR.use_pretty_numbers(self.pretty)
 
     def __exit__(self, *a: Any) -> None:
@@ -216,16 +263,62 @@ def needed_vars(name: str, kw: Dict[str, Any]) -> int:
     return 2
 
 
+def run_scheduled(name: str, kwargs: Dict[str, Any], pretty: bool, mode: str, ctx: Ctx):
+    """Real variable pools, scripted index draws.  'rr' (round-robin) fulfils every feasible request, so a retry
+    failure under it means the request can never be fulfilled; 'first' stalls every multi-variable request, so the
+    outcome must be the documented ValueError or a valid result."""
+    f = getattr(PR, name)
+    SCHED["mode"] = mode
+    DRAW["bound"] = 10**9
+    try:
+        with installed(pretty, pool=0):
+            try:
+                out = f(**kwargs)
+            except (ValueError, EnvironmentError) as e:
+                msg = str(e)
+                if mode == "first" and ("Unable to fulfill" in msg or "failed to generate" in msg or "out of range" in msg):
+                    return "retry-exhausted", [], None
+                if "out of range" in msg:
+                    return "rejected", [], None
+                return "raised", [("unfulfillable", f"{name}({kwargs}) raised {type(e).__name__}: {msg[:70]} although every index "
+                                   f"draw was a different variable (round-robin): the request can never be fulfilled")], None
+            except Exception as e:
+                return "raised", [("raised", f"{name}({kwargs}) raised {type(e).__name__}: {str(e)[:80]}")], None
+    finally:
+        SCHED["mode"] = None
+    if name == "get_rand_vars":
+        probs = []
+        if len(set(out)) != len(out) or len(out) != kwargs["num_vars"]:
+            probs.append(("vars-not-distinct", f"get_rand_vars({kwargs}) returned {out}"))
+        if any(v in (kwargs.get("exclude_vars") or []) for v in out):
+            probs.append(("vars-excluded", f"get_rand_vars({kwargs}) returned an excluded variable: {out}"))
+        return "ok", probs, out
+    text = out[0]
+    texts = [render(text, ctx, 0)]
+    return "ok", check_problem(name, out, ctx, texts), texts
+
+
 def run_generator(name: str, kwargs: Dict[str, Any], pretty: bool, ctx: Ctx):
+    if kwargs.get("__schedule"):
+        kw = {k: v for k, v in kwargs.items() if k != "__schedule"}
+        return run_scheduled(name, kw, pretty, kwargs["__schedule"], ctx)
     f = getattr(PR, name)
     need = needed_vars(name, kwargs)
     DRAW["bound"] = need + 2 + (kwargs.get("num_terms", 0) if isinstance(kwargs.get("op"), list) else 0)
     with installed(pretty, pool=min(7, need + 1) if not kwargs.get("common_variables") or name != "get_rand_vars" else 7):
+        infeasible = False
+        if name == "get_rand_vars":
+            pool = list(PR.common_variables if kwargs.get("common_variables") else PR.variables)
+            infeasible = kwargs["num_vars"] > len([v for v in pool if v not in (kwargs.get("exclude_vars") or [])])
         try:
             out = f(**kwargs)
+            if infeasible:
+                return "ok", [("vars-impossible", f"get_rand_vars({kwargs}) returned {out} although fewer eligible variables exist")], out
         except (ValueError, EnvironmentError) as e:
             msg = str(e)
             draws = ctx.notes.get("index_draws", 0)
+            if infeasible:
+                return "rejected", [], None
             if ("Unable to fulfill" in msg or "failed to generate" in msg) and draws >= 6:
                 return "retry-exhausted", [], None
             return "raised", [("raised", f"{name}({kwargs}) raised {type(e).__name__}: {msg[:80]} after {draws} index draws")], None
@@ -288,6 +381,21 @@ def configs(tier: str) -> List[Tuple[str, Dict[str, Any], bool]]:
                 out.append(("get_rand_vars", {"num_vars": nv, "exclude_vars": excl, "common_variables": common}, True))
     for v in range(0, 9 if tier == "quick" else 51):
         out.append(("split_in_two_random", {"value": v}, True))
+    # scheduled runs with the real pools and the DEFAULT parameters (capacity of the variable pools, stalled sampling)
+    for mode in ("rr", "first"):
+        S = {"__schedule": mode}
+        for g in ("gen_binomial_times_binomial", "gen_binomial_times_monomial", "gen_combine_terms_in_place", "gen_commute_haystack"):
+            out.append((g, dict(S), True))
+        for nt in (2, 3, 6, 10, 16):
+            out.append(("gen_simplify_multiple_terms", dict(S, num_terms=nt), True))
+        for nb in (1, 2, 3, 8):
+            out.append(("gen_move_around_blockers_one", dict(S, number_blockers=nb), True))
+            out.append(("gen_move_around_blockers_two", dict(S, number_blockers=nb), True))
+        for nv, excl in ((1, None), (1, ["a"]), (2, ["a"]), (5, ["a", "b"]), (20, ["x"]), (23, ["x"]), (24, None), (22, ["x", "y"]),
+                         (2, ["x"]), (3, ["x", "y"])):
+            out.append(("get_rand_vars", dict(S, num_vars=nv, exclude_vars=excl), True))
+        out.append(("get_rand_vars", dict(S, num_vars=2, exclude_vars=["x"], common_variables=True), True))
+        out.append(("get_rand_vars", dict(S, num_vars=1, exclude_vars=["x"], common_variables=True), True))
     return out
 
 
@@ -369,6 +477,7 @@ def run(tier: str) -> int:
     rep.functions = ["problems.gen_*", "get_rand_vars", "split_in_two_random", "rand_number/rand_bool/rand_var/maybe_number/"
                      "maybe_power/rand_op/truncate/get_blocker", "ExpressionParser.parse on the result", "util.has_like_terms"]
     rep.stubs = ["random.randint/randrange: fresh integer solver variable in the documented range",
+                 "random.sample: k solver-enumerated picks without replacement",
                  "random.uniform: fresh real in range; random.random: 6 representatives", "random.choice/shuffle: solver-enumerated picks"]
     rep.explanation = (
         "The generators run with every draw from `random` replaced by a solver variable or a solver-enumerated pick, so each "
